@@ -39,11 +39,23 @@ CATALOG = {
     "badimport": {"files": {"b.go": (None, "package badimport\n\nimport \"example.com/m/doesnotexist\"\n\ntype BI interface{ M(x doesnotexist.T) }\n")},
                   "ifaces": {"b.go": ["BI"]}, "errors": 1},
     "nonexist": {"files": {}, "ifaces": {}, "absent": True},
+    # types declared inside function bodies (one shadows a package-level interface), a blank type
+    # declaration, an interface type defined from an identifier
+    "funclocal": {"files": {"fl.go": (None, "package funclocal\n\ntype FL1 interface{ M() }\n\ntype FL2 FL1\n\ntype _ interface{ Blank() }\n\n"
+                                            "func f() {\n\ttype L interface{ M() }\n\tvar _ L\n\ttype FL1 interface{ Other() }\n\tvar _ FL1\n"
+                                            "\t_ = func() { type Inner interface{ X() } }\n}\n")},
+                  "ifaces": {"fl.go": ["FL1", "FL2"]}},
+    # nested recursive packages
+    "n": {"files": {"n.go": (None, "package n\n\ntype N1 interface{ M() }\n")}, "ifaces": {"n.go": ["N1"]}},
+    "n/q": {"files": {"q.go": (None, "package q\n\ntype Q1 interface{ M() }\n")}, "ifaces": {"q.go": ["Q1"]}},
+    "n/q/r": {"files": {"r.go": (None, "package r\n\ntype QR1 interface{ M() }\n")}, "ifaces": {"r.go": ["QR1"]}},
+    "n/z": {"files": {"z.go": (None, "package z\n\ntype Z1 interface{ M() }\n")}, "ifaces": {"z.go": ["Z1"]}},
 }
 VALID_PKGS = ["a", "b", "c", "r", "r/s1", "r/s2", "d/e"]
 BUILTIN = {"testify": {"boilerplate-file": str, "mock-build-tags": str, "unroll-variadic": bool},
            "matryer": {"boilerplate-file": str, "mock-build-tags": str, "skip-ensure": bool, "stub-impl": bool, "with-resets": bool}}
 TRAP_SCHEMA = {"boom-read": bool, "boom-index": bool, "boom-syntax": bool, "note": str}
+REQ_SCHEMA = {"note": str, "__required__": ["note"]}
 DEFAULTS = {"dir": "{{.InterfaceDir}}", "filename": "mocks_test.go", "pkgname": "{{.SrcPackageName}}",
             "structname": "{{.Mock}}{{.InterfaceName}}", "template": "testify", "formatter": "goimports",
             "force-file-write": False, "require-template-schema-exists": True,
@@ -131,8 +143,11 @@ def expand(value, data):
 
 
 def data_ok(schema, data):
+    for k in schema.get("__required__", []):
+        if k not in data:
+            return False
     for k, v in data.items():
-        if k not in schema:
+        if k not in schema or k == "__required__":
             return False
         if not isinstance(v, schema[k]) or (schema[k] is not bool and isinstance(v, bool)):
             return False
@@ -154,116 +169,125 @@ def rx_valid(rx):
     return rx not in BAD_RX
 
 
+def schema_of_template(tname):
+    """the schema CONTENT that goes with a template (the generators never pair a probe template
+    with another probe's schema)"""
+    if tname in BUILTIN:
+        return BUILTIN[tname]
+    if tname.endswith("c10_trap.templ"):
+        return TRAP_SCHEMA
+    if tname.endswith("c10_req.templ"):
+        return REQ_SCHEMA
+    return None
+
+
+def tinfo_of(tname, S):
+    """(kind, found, parses) of a `template` value"""
+    if any(tname.startswith(p) for p in ("file://", "http://", "https://")):
+        f = tname[len("file://"):] if tname.startswith("file://") else None
+        found = bool(f) and posixpath.dirname(f) == posixpath.join(S, "tpl") and (PROBES / posixpath.basename(f)).is_file()
+        return "TRemote", found, (not found) or not f.endswith("badsyntax.templ")
+    return "TBuiltin", tname in BUILTIN, True
+
+
+def schema_exists(url, S):
+    sf = url[len("file://"):] if url.startswith("file://") else None
+    return bool(sf) and posixpath.dirname(sf) == posixpath.join(S, "tpl") and (PROBES / posixpath.basename(sf)).is_file()
+
+
 def resolve(scn, S):
     """The abstract world (a plain dict mirroring coq/Cfg/Pipeline.v) of a scenario rooted at S."""
     m = posixpath.join(S, "m")
     root = dict(scn.get("env_root", {}))        # MOCKERY_* environment: below the config file
-    root.update(scn["root"])
+    root.update({k: v for k, v in scn["root"].items() if k != "_anchors"})
     tags = [t for t in str(lvl(root, "build-tags", "") or "").split(" ") if t]
     present = scn["pkgs"]
 
-    def files_of(name):
+    def files_of(name, tgs):
         c = CATALOG[name]
         return [f for f, (tag, _) in sorted(c["files"].items())
-                if f.endswith(".go") and not f.endswith("_test.go") and (tag is None or tag in tags)]
+                if f.endswith(".go") and not f.endswith("_test.go") and (tag is None or tag in tgs)]
 
-    def load(name):
+    def load(name, tgs=None):
+        tgs = tags if tgs is None else tgs
         c = CATALOG[name]
         if name not in present or c.get("absent") or c.get("nogo"):
             return 0, 1
-        fs_ = files_of(name)
+        fs_ = files_of(name, tgs)
         if not fs_:
             anygo = any(f.endswith(".go") and not f.endswith("_test.go") for f in c["files"])
             return 0, (1 if anygo else 0)     # all excluded by constraints -> error; test-only -> clean
         return len(fs_), c.get("errors", 0)
 
-    # ---- Initialize: recursive roots ----
-    pk = {}          # path -> {"own": cfg entry, "parent": parent pkg-level config or None}
+    # ---- Initialize: every configured package is merged from the root; then the recursive
+    # packages, deepest first (a sub-package inherits from its nearest recursive ancestor) ----
+    pk = {}          # path -> {"own": cfg entry, "pchain": list of package-level dicts, most specific first}
     for path, ent in scn["packages"].items():
-        pk[path] = {"own": ent or {}, "parent": None}
+        pk[path] = {"own": ent or {}, "pchain": [lvl(ent, "config"), root]}
     roots = []
-    excl = lvl(root, "exclude-subpkg-regex") or []
-    for path in list(pk):
-        own = pk[path]["own"]
-        if chain_get([lvl(own, "config"), root], "recursive"):
-            subs = []
-            for name in present:
-                p2 = pkg_path(name)
-                if (p2 == path or p2.startswith(path + "/")) and load(name)[0] > 0:
-                    subs.append(p2)
-            roots.append({"load_ok": True, "subs": subs})
-            for p2 in subs:
-                verdict = False
-                for rx in excl:
-                    r = go_search(rx, p2) if rx_valid(rx) else None
-                    if r is None:
-                        verdict = None
-                        break
-                    if r:
-                        verdict = True
-                        break
-                if verdict is None or verdict:
-                    continue
-                if p2 == path:
-                    continue
-                if p2 in pk:
-                    # an explicitly configured sub-package already got every scalar from the
-                    # root (defaults included) before the parent is merged: only map-typed
-                    # values (template-data) can still be filled from the parent
-                    if pk[p2]["parent"] is None and pk[p2].get("dataparent") is None:
-                        pk[p2]["dataparent"] = lvl(own, "config") or {}
-                else:
-                    pk[p2] = {"own": {}, "parent": lvl(own, "config") or {}}
+
+    def is_rec(path):
+        return bool(chain_get(pk[path]["pchain"], "recursive"))
+
+    def subs_of(path):
+        # packages.Load(path/...) without the configured build tags
+        return [pkg_path(n) for n in present
+                if (pkg_path(n) == path or pkg_path(n).startswith(path + "/")) and load(n, [])[0] > 0]
+
+    def verdict(excl, p2):
+        for rx in excl:
+            r = go_search(rx, p2) if rx_valid(rx) else None
+            if r is None:
+                return None
+            if r:
+                return True
+        return False
+
+    for path in sorted([p for p in pk if is_rec(p)], reverse=True):
+        excl = chain_get(pk[path]["pchain"], "exclude-subpkg-regex") or []
+        subs = subs_of(path)
+        roots.append({"load_ok": True, "subs": subs, "excl": excl})
+        for p2 in subs:
+            v = verdict(excl, p2)
+            if v is None or v or p2 == path:
+                continue
+            if p2 in pk:
+                # an existing entry already has every scalar (its own, the root's or its
+                # nearest ancestor's): only map-typed values can still be filled
+                pk[p2]["pchain"] = pk[p2]["pchain"] + [{"template-data": lvl(pk[path]["pchain"][0], "template-data")}]
+            else:
+                pk[p2] = {"own": {}, "pchain": list(pk[path]["pchain"]), "added": True}
+    # the second Initialize (RootApp.Run): packages added above inherited recursive: true
+    for path in pk:
+        if pk[path].get("added") and is_rec(path):
+            roots.append({"load_ok": True, "subs": subs_of(path), "excl": chain_get(pk[path]["pchain"], "exclude-subpkg-regex") or []})
     # ---- packages ----
     pkgs = []
+    templates = {}
     for path in pk:
         name = path[len(MOD) + 1:] if path.startswith(MOD + "/") else None
         own = pk[path]["own"]
-        pchain = [lvl(own, "config"), pk[path]["parent"], root]
-        if pk[path].get("dataparent"):
-            pchain = pchain + [{"template-data": lvl(pk[path]["dataparent"], "template-data")}]
+        pchain = pk[path]["pchain"]
         if name not in CATALOG:
             nfiles, nerr, decls_src = 0, 1, []
         else:
             nfiles, nerr = load(name)
             decls_src = []
             if nfiles:
-                for f in files_of(name):
+                for f in files_of(name, tags):
                     for i in CATALOG[name]["ifaces"].get(f, []):
                         decls_src.append((f, i))
         srcdir = posixpath.join(m, name) if name else m
         goname = pkg_goname(name) if name else "x"
-        tmpl_raw = chain_get(pchain, "template")
-
-        def tinfo(tname, schema_raw, require):
-            if any(tname.startswith(p) for p in ("file://", "http://", "https://")):
-                f = tname[len("file://"):] if tname.startswith("file://") else None
-                found = bool(f) and posixpath.dirname(f) == posixpath.join(S, "tpl") and (PROBES / posixpath.basename(f)).is_file()
-                parses = found and not f.endswith("badsyntax.templ")
-                sf = schema_raw[len("file://"):] if schema_raw.startswith("file://") else None
-                schema_ok = bool(sf) and posixpath.dirname(sf) == posixpath.join(S, "tpl") and (PROBES / posixpath.basename(sf)).is_file()
-                schema = TRAP_SCHEMA if schema_ok else None
-                return "TRemote", found, parses, schema_ok, schema
-            return "TBuiltin", tname in BUILTIN, True, True, BUILTIN.get(tname)
         # package-level ParseTemplates (iface = nil)
         pdata = {"InterfaceDir": "", "InterfaceDirRelative": "", "InterfaceFile": "", "InterfaceName": "", "Mock": "",
                  "StructName": chain_get(pchain, "structname"), "SrcPackageName": goname, "SrcPackagePath": path,
-                 "Template": tmpl_raw, "ConfigDir": m}
+                 "Template": chain_get(pchain, "template"), "ConfigDir": m}
         pst = "TOk"
-        pvals = {}
         for attr in ("dir", "filename", "pkgname", "structname", "template-schema"):
             st, val = expand(chain_get(pchain, attr), pdata)
-            pvals[attr] = val
             if st != "TOk" and pst == "TOk":
                 pst = st
-        require = bool(chain_get(pchain, "require-template-schema-exists"))
-        tkind, tfound, tparses, schema_ok, schema = tinfo(tmpl_raw, pvals["template-schema"], require)
-        validates = (tkind == "TBuiltin") or require
-        pcfg = {"tstatus": pst, "tkind": tkind, "tfound": tfound, "tparses": tparses, "require_schema": require,
-                "schema_ok": schema_ok,
-                "data_ok": (data_ok(schema, merged_data(pchain)) if (schema is not None) else True),
-                "force": bool(chain_get(pchain, "force-file-write")), "template": tmpl_raw, "validates": validates,
-                "schema": pvals["template-schema"]}
         listed = list((lvl(own, "interfaces") or {}).keys())
         decls = []
         for f, iname in decls_src:
@@ -277,9 +301,10 @@ def resolve(scn, S):
             reqs = []
             for ch in chains:
                 mock = "Mock" if iname[:1].isupper() else "mock"
+                tname = chain_get(ch, "template")
                 data = {"InterfaceDir": srcdir, "InterfaceDirRelative": name, "InterfaceFile": posixpath.join(srcdir, f),
                         "InterfaceName": iname, "Mock": mock, "StructName": chain_get(ch, "structname"),
-                        "SrcPackageName": goname, "SrcPackagePath": path, "Template": chain_get(ch, "template"), "ConfigDir": m}
+                        "SrcPackageName": goname, "SrcPackagePath": path, "Template": tname, "ConfigDir": m}
                 st = "TOk"
                 vals = {}
                 for attr in ("dir", "filename", "pkgname", "structname", "template-schema"):
@@ -291,20 +316,28 @@ def resolve(scn, S):
                 phys = key if key.startswith("/") else posixpath.normpath(posixpath.join(m, key))
                 rel = posixpath.relpath(phys, S)
                 td = merged_data(ch)
-                # replace-type is only read at the interface level here (its inheritance is C08's
-                # subject); it makes the preparation fail when a parameter of that type exists
+                # replace-type makes the preparation fail when a parameter of that type exists
                 rt = None
-                if iname in listed:
-                    rt = lvl(ch[0], "replace-type") or (lvl(ch[1], "replace-type") if entries else None)
+                for d in ch:
+                    if lvl(d, "replace-type"):
+                        rt = lvl(d, "replace-type")
+                        break
                 rt = rt if (rt and "context" in rt and iname == "B1") else None
+                templates[tname] = tinfo_of(tname, S)
+                schema = schema_of_template(tname)
+                trap = tname.endswith("c10_trap.templ")
+                fm = chain_get(ch, "formatter")
                 reqs.append({"iface": iname, "tstatus": st, "key": key, "path": [] if rel == "." else rel.split("/"),
                              "outside": rel.startswith(".."),
-                             "pkgname": vals["pkgname"], "template": chain_get(ch, "template"), "structname": vals["structname"],
+                             "pkgname": vals["pkgname"], "template": tname, "structname": vals["structname"],
+                             "require_schema": bool(chain_get(ch, "require-template-schema-exists")),
+                             "schema_ok": schema_exists(vals["template-schema"], S) if templates[tname][0] == "TRemote" else True,
+                             "force": bool(chain_get(ch, "force-file-write")),
+                             "formatter": {"gofmt": "FGofmt", "goimports": "FGoimports", "noop": "FNoop"}.get(fm, "FUnknown"),
                              "prep_ok": not rt,
                              "data_ok": (data_ok(schema, td) if schema is not None else True),
-                             "exec_ok": not (tmpl_raw.endswith("c10_trap.templ") and (td.get("boom-read") is True or td.get("boom-index") is True)),
-                             "syntax_ok": not (tmpl_raw.endswith("c10_trap.templ") and td.get("boom-syntax") is True),
-                             "force_levels": [lvl(d, "force-file-write") for d in ch]})
+                             "exec_ok": not (trap and (td.get("boom-read") is True or td.get("boom-index") is True)),
+                             "syntax_ok": not (trap and td.get("boom-syntax") is True)})
             decls.append({"name": iname, "reqs": reqs})
         inc = chain_get(pchain, "include-interface-regex") or ""
         exc = chain_get(pchain, "exclude-interface-regex") or ""
@@ -313,13 +346,10 @@ def resolve(scn, S):
                      "all": bool(chain_get(pchain, "all")),
                      "include": None if inc == "" else {"valid": rx_valid(inc), "matches": [n for n in names if rx_valid(inc) and go_search(inc, n)]},
                      "exclude": None if exc == "" else {"valid": rx_valid(exc), "matches": [n for n in names if rx_valid(exc) and go_search(exc, n)]},
-                     "cfg": pcfg})
-    fm = chain_get([root], "formatter")
-    allsubs = sorted({s for r in roots for s in r["subs"]})
-    return {"cfg": scn["cfg_status"], "roots": roots,
-            "exclude": [{"valid": rx_valid(rx), "matches": [s for s in allsubs if rx_valid(rx) and go_search(rx, s)]} for rx in excl],
-            "pkgs": pkgs, "formatter": {"gofmt": "FGofmt", "goimports": "FGoimports", "noop": "FNoop"}.get(fm, "FUnknown"),
-            "aux_ok": scn["aux_ok"]}
+                     "cfg": {"tstatus": pst}})
+    for r in roots:
+        r["exclude"] = [{"valid": rx_valid(rx), "matches": [s_ for s_ in r["subs"] if rx_valid(rx) and go_search(rx, s_)]} for rx in r["excl"]]
+    return {"cfg": scn["cfg_status"], "roots": roots, "pkgs": pkgs, "templates": templates, "aux_ok": scn["aux_ok"]}
 
 
 # ---------------- Python mirror of the selection (only to enumerate map keys / expectations) ------
@@ -376,22 +406,19 @@ def orx_term(r):
 
 def req_term(q):
     return ("{| q_iface := %s; q_tstatus := %s; q_key := %s; q_path := %s; q_pkgname := %s; q_template := %s; "
+            "q_require_schema := %s; q_schema_ok := %s; q_force := %s; q_formatter := %s; "
             "q_prep_ok := %s; q_data_ok := %s; q_exec_ok := %s |}") % (
         coq_bytes(q["iface"]), q["tstatus"], coq_bytes(q["key"]), coq_path(q["path"]), coq_bytes(q["pkgname"]),
-        coq_bytes(q["template"]), coq_bool(q["prep_ok"]), coq_bool(q["data_ok"]), coq_bool(q["exec_ok"]))
+        coq_bytes(q["template"]), coq_bool(q["require_schema"]), coq_bool(q["schema_ok"]), coq_bool(q["force"]), q["formatter"],
+        coq_bool(q["prep_ok"]), coq_bool(q["data_ok"]), coq_bool(q["exec_ok"]))
 
 
 def pkg_term(p):
-    c = p["cfg"]
-    cfg = ("{| c_tstatus := %s; c_tkind := %s; c_tfound := %s; c_tparses := %s; c_require_schema := %s; "
-           "c_schema_ok := %s; c_data_ok := %s; c_force := %s |}") % (
-        c["tstatus"], c["tkind"], coq_bool(c["tfound"]), coq_bool(c["tparses"]), coq_bool(c["require_schema"]),
-        coq_bool(c["schema_ok"]), coq_bool(c["data_ok"]), coq_bool(c["force"]))
     decls = coq_list("{| d_name := %s; d_reqs := %s |}" % (coq_bytes(d["name"]), coq_list(req_term(q) for q in d["reqs"])) for d in p["decls"])
     return ("{| p_path := %s; p_nfiles := %d; p_nerrors := %d; p_decls := %s; p_listed := %s; p_all := %s; "
-            "p_include := %s; p_exclude := %s; p_cfg := %s |}") % (
+            "p_include := %s; p_exclude := %s; p_cfg := {| c_tstatus := %s |} |}") % (
         coq_bytes(p["path"]), p["nfiles"], p["nerrors"], decls, coq_list(coq_bytes(x) for x in p["listed"]),
-        coq_bool(p["all"]), orx_term(p["include"]), orx_term(p["exclude"]), cfg)
+        coq_bool(p["all"]), orx_term(p["include"]), orx_term(p["exclude"]), p["cfg"]["tstatus"])
 
 
 def node_term(n):
@@ -404,13 +431,15 @@ def node_term(n):
 
 def world_term(world, before, ro, contents, invalid_keys):
     fs_items = coq_list("(%s, %s)" % (coq_path(p), "Dir" if n == "DIR" else "File %s" % coq_bytes(n)) for p, n in before)
-    return ("{| w_cfg := %s; w_roots := %s; w_exclude := %s; w_pkgs := %s; w_formatter := %s; "
+    return ("{| w_cfg := %s; w_roots := %s; w_pkgs := %s; w_tinfo := tinfo_of %s; "
             "w_modaux := (fun _ => %s); w_fs := fs_of %s; w_ro := set_of %s; w_content := content_of %s; "
             "w_valid_go := (fun k => negb (sset_of %s k)) |}") % (
         world["cfg"],
-        coq_list("{| rr_load_ok := %s; rr_subpkgs := %s |}" % (coq_bool(r["load_ok"]), coq_list(coq_bytes(s) for s in r["subs"])) for r in world["roots"]),
-        coq_list(rx_term(r) for r in world["exclude"]),
-        coq_list(pkg_term(p) for p in world["pkgs"]), world["formatter"], coq_bool(world["aux_ok"]),
+        coq_list("{| rr_load_ok := %s; rr_subpkgs := %s; rr_exclude := %s |}" % (
+            coq_bool(r["load_ok"]), coq_list(coq_bytes(s_) for s_ in r["subs"]), coq_list(rx_term(x) for x in r["exclude"])) for r in world["roots"]),
+        coq_list(pkg_term(p) for p in world["pkgs"]),
+        coq_list("(%s, (%s, %s, %s))" % (coq_bytes(n), coq_bool(k == "TRemote"), coq_bool(f), coq_bool(pr)) for n, (k, f, pr) in sorted(world["templates"].items())),
+        coq_bool(world["aux_ok"]),
         fs_items, coq_list(coq_path(p) for p in ro),
         coq_list("(%s, %s)" % (coq_bytes(k), coq_bytes(v)) for k, v in contents),
         coq_list(coq_bytes(k) for k in invalid_keys))
@@ -587,7 +616,14 @@ def execute(ctx, scn, idx, base=None):
         data = ref_bytes.get(tuple(rel.split("/")))
         if data is None:
             data = b"package unknown\n\n// placeholder: no reference content for this path\n"
-        scn["init"][rel] = data if how == "same" else data + b"\n// stale: generated by an earlier run\n"
+        if how == "same":
+            scn["init"][rel] = data
+        elif how == "stale":
+            scn["init"][rel] = data + b"\n// stale: generated by an earlier run\n"
+        else:
+            # longer than the new content and different from its first line on
+            scn["init"][rel] = b"// Code generated by an EARLIER run, with more mocks; DO NOT EDIT.\n" + data + b"".join(
+                b"\n// MockGone%d was generated for an interface that no longer exists\n" % i for i in range(12))
     S = str(ctx.scratch / ("scn%d" % idx))
     b = bind(scn, S)
     materialize(b, S)
@@ -761,6 +797,22 @@ def sel_status(p, n):
     return n not in p["exclude"]["matches"]
 
 
+def governing(world):
+    """{key: first selected request with that key} = the mock whose config governs the file"""
+    g = {}
+    for p, q in selected(world):
+        g.setdefault(q["key"], q)
+    return g
+
+
+def req_fails(world, q, g):
+    """producing the file fails because of this mock (g = the governing mock of its file)"""
+    kind, found, parses = world["templates"][q["template"]]
+    validates = kind == "TBuiltin" or g["require_schema"]
+    return (not q["prep_ok"] or not found or (validates and not q["data_ok"]) or not parses or not q["exec_ok"]
+            or (not q["syntax_ok"] and g["formatter"] != "FNoop"))
+
+
 def classes_of(world):
     cl = set()
     if world["cfg"] == "CfgUnknownKey":
@@ -769,14 +821,14 @@ def classes_of(world):
         cl.add("ConfigUnreadable")
     if not world["pkgs"]:
         cl.add("NoPackages")
-    allsubs = {s for r in world["roots"] for s in r["subs"]}
-    for s in allsubs:
-        for rx in world["exclude"]:
-            if not rx["valid"]:
-                cl.add("BadRegexSubpkg")
-                break
-            if s in rx["matches"]:
-                break
+    for r in world["roots"]:
+        for s_ in r["subs"]:
+            for rx in r["exclude"]:
+                if not rx["valid"]:
+                    cl.add("BadRegexSubpkg")
+                    break
+                if s_ in rx["matches"]:
+                    break
     paths_with_files = [p["path"] for p in world["pkgs"] if p["nfiles"] > 0]
     for p in world["pkgs"]:
         has_sub = any(x.startswith(p["path"] + "/") for x in paths_with_files)
@@ -791,30 +843,32 @@ def classes_of(world):
                 if sel_status(p, d["name"]) is None:
                     cl.add("BadRegexInterface")
     sel = selected(world)
+    gov = governing(world)
     bykey = {}
     for p, q in sel:
-        c = p["cfg"]
-        if not c["tfound"]:
-            cl.add("UnknownTemplate" if c["tkind"] == "TBuiltin" else "MissingRemoteTemplate")
-        if q["tstatus"] == "TCyclic" or c["tstatus"] == "TCyclic":
+        kind, found, parses = world["templates"][q["template"]]
+        g = gov[q["key"]]
+        if not found:
+            cl.add("UnknownTemplate" if kind == "TBuiltin" else "MissingRemoteTemplate")
+        if q["formatter"] == "FUnknown":
+            cl.add("UnknownFormatter")
+        if q["tstatus"] == "TCyclic" or p["cfg"]["tstatus"] == "TCyclic":
             cl.add("CyclicTemplate")
-        if q["tstatus"] == "TBad" or c["tstatus"] == "TBad":
+        if q["tstatus"] == "TBad" or p["cfg"]["tstatus"] == "TBad":
             cl.add("BadTemplatedValue")
-        if c["tkind"] == "TRemote" and c["require_schema"] and not c["schema_ok"]:
+        if q is g and kind == "TRemote" and q["require_schema"] and not q["schema_ok"]:
             cl.add("SchemaMissing")
-        if c["validates"] and (not c["data_ok"] or not q["data_ok"]):
+        if (kind == "TBuiltin" or g["require_schema"]) and not q["data_ok"]:
             cl.add("SchemaReject")
-        if not c["tparses"]:
+        if not parses:
             cl.add("TemplateSyntax")
         if not q["exec_ok"]:
             cl.add("TemplateExecution")
-        if not q["syntax_ok"] and world["formatter"] != "FNoop":
+        if not q["syntax_ok"] and g["formatter"] != "FNoop":
             cl.add("InvalidGoOutput")
         if not q["prep_ok"]:
             cl.add("PrepareFailure")
         bykey.setdefault(q["key"], []).append((p, q))
-    if sel and world["formatter"] == "FUnknown":
-        cl.add("UnknownFormatter")
     for k, l in bykey.items():
         if len({p["path"] for p, _ in l}) > 1:
             cl.add("ConflictPackage")
@@ -903,9 +957,22 @@ def level_dict(rng, scn, levels=("root", "pkg", "iface", "entry")):
     return "entry", e, path
 
 
-def inj_listed_missing(rng, scn):
-    path, ent = pick_pkg(rng, scn, lambda p, e: True)
+def inj_listed_missing(rng, scn, with_all=False):
+    path, ent = pick_pkg(rng, scn, (lambda p, e: ifaces_of(p)) if with_all else (lambda p, e: True))
     ent = ensure_cfg(scn, path)
+    if with_all:
+        # all: true (at the package or inherited from the root) together with a listed name that does
+        # not exist; the selection changes, so the valid base gets the same setting
+        at_pkg = rng.random() < 0.5
+        for sc in [scn] + ([scn["base_ref"]] if scn.get("base_ref") is not None else []):
+            e2 = ensure_cfg(sc, path)
+            if at_pkg:
+                e2["config"]["all"] = True
+            else:
+                sc["root"]["all"] = True
+                e2["config"].pop("all", None)
+            e2["config"].pop("include-interface-regex", None)
+            e2["config"].pop("exclude-interface-regex", None)
     ent.setdefault("interfaces", {})
     ent["interfaces"][rng.choice(["Typo", "a1", "DoesNotExist", "NotIface"])] = None
     scn["tags"].append("ListedMissing")
@@ -927,15 +994,18 @@ def inj_pkg_load_error(rng, scn, fileless=False):
     scn["tags"].append("PkgLoadError")
 
 
-def inj_unknown_template(rng, scn):
-    lv, d, path = level_dict(rng, scn, ("root", "pkg"))
-    d["template"] = rng.choice(["nonsense", "Testify", "mockery", ""]) or "nonsense"
+def inj_unknown_template(rng, scn, levels=("root", "pkg", "iface", "entry")):
+    lv, d, path = level_dict(rng, scn, levels)
+    d["template"] = rng.choice(["nonsense", "Testify", "mockery"])
     scn["tags"].append("UnknownTemplate")
+    scn["tags"].append("level:" + lv)
 
 
-def inj_unknown_formatter(rng, scn):
-    scn["root"]["formatter"] = rng.choice(["prettier", "GoFmt", "none"])
+def inj_unknown_formatter(rng, scn, levels=("root", "pkg", "iface", "entry")):
+    lv, d, path = level_dict(rng, scn, levels)
+    d["formatter"] = rng.choice(["prettier", "GoFmt", "none"])
     scn["tags"].append("UnknownFormatter")
+    scn["tags"].append("level:" + lv)
 
 
 def inj_unknown_key(rng, scn):
@@ -970,7 +1040,8 @@ def inj_bad_regex(rng, scn, kind=None):
         ent["config"]["recursive"] = True
         ent["config"].setdefault("all", True)
         good = rng.sample(["zzz", "s2$", "^nomatch"], rng.randint(0, 2))
-        scn["root"]["exclude-subpkg-regex"] = good + [bad] + rng.sample(["s1$"], rng.randint(0, 1))
+        tgt = rng.choice([scn["root"], ent["config"]])          # the list of the recursive package, or the inherited one
+        tgt["exclude-subpkg-regex"] = good + [bad] + rng.sample(["s1$"], rng.randint(0, 1))
         scn["tags"].append("BadRegexSubpkg")
         return
     # a package whose selection reaches the regex: not all, with an unlisted declared interface
@@ -1007,10 +1078,50 @@ def inj_bad_templated(rng, scn):
     scn["tags"].append("BadTemplatedValue")
 
 
-def inj_schema_reject(rng, scn):
-    lv, d, path = level_dict(rng, scn, ("root", "pkg", "iface", "entry"))
+def inj_schema_reject(rng, scn, levels=("root", "pkg", "iface", "entry")):
+    lv, d, path = level_dict(rng, scn, levels)
     d["template-data"] = rng.choice([{"bogus-key": 1}, {"unroll-variadic": "yes"}, {"boilerplate-file": 3}])
     scn["tags"].append("SchemaReject")
+    scn["tags"].append("level:" + lv)
+
+
+def inj_schema_reject_later(rng, scn):
+    """the violation sits only on a mock that is NOT the first of its file; nothing at root or
+    package level (the file-level template-data is then empty)"""
+    path = two_ifaces_pkg(rng, scn)
+    ent = ensure_cfg(scn, path)
+    ifs = ifaces_of(path)
+    ent["config"]["all"] = True
+    ent["config"].pop("include-interface-regex", None)
+    ent["config"].pop("template-data", None)
+    scn["root"].pop("template-data", None)
+    ent["config"]["filename"] = "shared_file_test.go"
+    bad = rng.choice([{"bogus-key": 1}, {"unroll-variadic": "yes"}])
+    how = rng.choice(["iface", "entry"])
+    last = ifs[-1]
+    if how == "iface":
+        ent["interfaces"] = {last: {"config": {"template-data": bad}}}
+    else:
+        ent["interfaces"] = {last: {"configs": [{"structname": "Plain{{.InterfaceName}}"},
+                                                 {"structname": "Odd{{.InterfaceName}}", "template-data": bad}]}}
+    scn["tags"].append("SchemaReject")
+    scn["tags"].append("level:later-" + how)
+
+
+def inj_schema_required(rng, scn):
+    """a template whose schema requires a key, and no template-data anywhere"""
+    lv, d, path = level_dict(rng, scn, ("root", "pkg"))
+    d["template"] = "file://@S@/tpl/c10_req.templ"
+    for dd in [scn["root"]] + [lvl(e, "config") for e in scn["packages"].values()]:
+        if dd:
+            dd.pop("template-data", None)
+    for e in scn["packages"].values():
+        for i, ie in (lvl(e, "interfaces") or {}).items():
+            for c in [lvl(ie, "config")] + list(lvl(ie, "configs") or []):
+                if c and "template-data" in c:
+                    del c["template-data"]
+    scn["tags"].append("SchemaReject")
+    scn["tags"].append("level:required-no-data")
 
 
 def inj_conflict_pkg(rng, scn):
@@ -1094,15 +1205,13 @@ def use_trap(scn, path=None):
 
 
 def inj_missing_remote(rng, scn):
-    lv, d, path = level_dict(rng, scn, ("root", "pkg"))
+    lv, d, path = level_dict(rng, scn)
     d["template"] = "file://@S@/tpl/does_not_exist.templ"
     scn["tags"].append("MissingRemoteTemplate")
+    scn["tags"].append("level:" + lv)
 
 
 def inj_schema_missing(rng, scn):
-    # one remote template with two different schema URLs is the schema-cache defect owned by
-    # C12 (the cache is keyed by template name): either everything uses the probe template
-    # and the missing schema is named at root level, or exactly one package uses it
     lv, d, path = level_dict(rng, scn, ("root", "pkg"))
     use_trap(scn, None if lv == "root" else path)
     d["template-schema"] = "file://@S@/tpl/no_such_schema.json"
@@ -1110,10 +1219,11 @@ def inj_schema_missing(rng, scn):
 
 
 def inj_template_syntax(rng, scn):
-    lv, d, path = level_dict(rng, scn, ("root", "pkg"))
+    lv, d, path = level_dict(rng, scn)
     d["template"] = "file://@S@/tpl/c10_badsyntax.templ"
     d["require-template-schema-exists"] = False
     scn["tags"].append("TemplateSyntax")
+    scn["tags"].append("level:" + lv)
 
 
 def inj_exec_failure(rng, scn):
@@ -1149,14 +1259,26 @@ def inj_prepare_failure(rng, scn):
     scn["tags"].append("PrepareFailure")
 
 
+def at(fn, *levels):
+    return lambda rng, scn: fn(rng, scn, levels)
+
+
 INJECTIONS = {
-    "ListedMissing": inj_listed_missing, "PkgLoadError": inj_pkg_load_error,
-    "PkgLoadErrorFileless": lambda rng, scn: inj_pkg_load_error(rng, scn, True), "UnknownTemplate": inj_unknown_template,
-    "UnknownFormatter": inj_unknown_formatter, "UnknownKey": inj_unknown_key,
+    "ListedMissing": inj_listed_missing, "ListedMissingAll": lambda rng, scn: inj_listed_missing(rng, scn, True),
+    "PkgLoadError": inj_pkg_load_error,
+    "PkgLoadErrorFileless": lambda rng, scn: inj_pkg_load_error(rng, scn, True),
+    "UnknownTemplateRootPkg": at(inj_unknown_template, "root", "pkg"), "UnknownTemplateIface": at(inj_unknown_template, "iface"),
+    "UnknownTemplateEntry": at(inj_unknown_template, "entry"),
+    "UnknownFormatterRootPkg": at(inj_unknown_formatter, "root", "pkg"), "UnknownFormatterIface": at(inj_unknown_formatter, "iface"),
+    "UnknownFormatterEntry": at(inj_unknown_formatter, "entry"),
+    "UnknownKey": inj_unknown_key,
     "BadRegexInclude": lambda rng, scn: inj_bad_regex(rng, scn, "include"),
     "BadRegexExclude": lambda rng, scn: inj_bad_regex(rng, scn, "exclude"),
     "BadRegexSubpkg": lambda rng, scn: inj_bad_regex(rng, scn, "subpkg"),
-    "CyclicTemplate": inj_cyclic, "BadTemplatedValue": inj_bad_templated, "SchemaReject": inj_schema_reject,
+    "CyclicTemplate": inj_cyclic, "BadTemplatedValue": inj_bad_templated,
+    "SchemaRejectRoot": at(inj_schema_reject, "root"), "SchemaRejectPkg": at(inj_schema_reject, "pkg"),
+    "SchemaRejectIface": at(inj_schema_reject, "iface"), "SchemaRejectEntry": at(inj_schema_reject, "entry"),
+    "SchemaRejectLater": inj_schema_reject_later, "SchemaRequired": inj_schema_required,
     "ConflictPackage": inj_conflict_pkg, "ConflictPkgName": inj_conflict_pkgname, "ConflictTemplate": inj_conflict_template,
     "ConfigUnreadable": inj_config_unreadable, "NoPackages": inj_no_packages, "MissingRemoteTemplate": inj_missing_remote,
     "SchemaMissing": inj_schema_missing, "TemplateSyntax": inj_template_syntax, "TemplateExecution": inj_exec_failure,
@@ -1211,6 +1333,29 @@ def unusual(rng, kind, i=0):
         ensure_cfg(scn, path)["config"]["pkgname"] = "outside"
         scn["tags"].append("nogomod")
         return scn
+    if kind == "funclocal":
+        # types declared in function bodies, a blank type declaration, `type FL2 FL1`
+        scn = gen_base(rng, layout=rng.choice(["default", "periface"]), pkgs=rng.sample(["a", "b", "c"], 2))
+        scn["pkgs"].append("funclocal")
+        scn["packages"][pkg_path("funclocal")] = rng.choice([{"config": {"all": True}}, {"interfaces": {"FL1": None, "FL2": None}},
+                                                             {"config": {"include-interface-regex": "^FL"}}])
+        scn["tags"].append("unusual:funclocal")
+        return scn
+    if kind == "anchors":
+        scn = gen_base(rng)
+        scn["root"]["_anchors"] = rng.choice([{"a": 1}, {"shared": {"all": True}}, {}])
+        scn["tags"].append("unusual:anchors")
+        return scn
+    if kind == "nestedrec":
+        # two nested recursive packages: n/q/r takes n/q's settings, n/z takes n's
+        scn = gen_base(rng, layout="default", pkgs=rng.sample(["a", "b"], 1))
+        scn["pkgs"] += ["n", "n/q", "n/q/r", "n/z"]
+        scn["packages"][pkg_path("n")] = {"config": {"recursive": True, "all": True, "structname": "N{{.InterfaceName}}"}}
+        scn["packages"][pkg_path("n/q")] = {"config": {"recursive": True, "all": True, "structname": "Q{{.InterfaceName}}"}}
+        if rng.random() < 0.5:
+            scn["packages"][pkg_path("n")]["config"]["exclude-subpkg-regex"] = ["/z$"]
+        scn["tags"].append("unusual:nestedrec")
+        return scn
     if kind == "nullconfigs":
         # a null entry in `configs` stands for "no overrides" (like a null package or interface entry)
         scn = gen_base(rng, layout="default", pkgs=["a", "b"])
@@ -1238,7 +1383,7 @@ def unusual(rng, kind, i=0):
 
 
 UNUSUAL = ["gomod", "gomod", "nestedmod", "nestedmod", "nogomod", "onlytest", "nodecl", "mixedtag", "mixedtag-tags", "tagged-tags",
-           "nullconfigs", "envbool", "gomod"]
+           "nullconfigs", "envbool", "gomod", "funclocal", "anchors", "nestedrec"]
 
 
 # ----------------------------------------------------------------------------------------
@@ -1389,15 +1534,8 @@ def expected_valid(res):
 
 # ----------------------------------------------------------------------------------------
 def foreign_class(scn):
-    """input classes whose defects are owned by other properties: the main streams stay out"""
-    w = resolve(bind(scn, "/nonexistent"), "/nonexistent")
-    seen = {}
-    for p in w["pkgs"]:
-        c = p["cfg"]
-        if c["tkind"] == "TRemote":
-            seen.setdefault(c["template"], set()).add((c["schema"], c["require_schema"]))
-    if any(len(v) > 1 for v in seen.values()):
-        return "C12 schema cache keyed by template name"
+    """input classes whose defects are owned by other properties and not repaired: none at present
+    (the C07 / C08 / C12 / C19 repairs are in the tree)"""
     return None
 
 
@@ -1618,7 +1756,7 @@ def check(ctx, only=None):
         pairs = [(s, (dict(new_scn(b["pkgs"]), **b) if b else None)) for s, b in pairs]
     else:
         nk = len(INJECTIONS)
-        pairs = gen_scenarios(ctx, n_inj=(nk * 12 if big else nk * 2), n_combo=(120 if big else 14),
+        pairs = gen_scenarios(ctx, n_inj=(nk * 8 if big else nk), n_combo=(120 if big else 12),
                               n_unusual=(len(UNUSUAL) * 8 if big else len(UNUSUAL) + 3), n_valid=(60 if big else 8))
         pairs += [(alias_witness(ctx.rng), None) for _ in range(2)]
     results = run_pipeline_stream(ctx, pairs, oracle_c09)
@@ -1649,10 +1787,11 @@ def check(ctx, only=None):
             hist[c] = hist.get(c, 0) + 1
         for t in scn["tags"]:
             if ":" in t:
-                hist[t.split(":")[0]] = hist.get(t.split(":")[0], 0) + 1
+                k = t if t.startswith(("level:", "unusual:")) else t.split(":")[0]
+                hist[k] = hist.get(k, 0) + 1
         # harness self-check: the injection must be in the class it claims
         for t in scn["tags"]:
-            if len(scn["tags"]) == 1 and t in FAIL_CLASSES and t not in classes and scn["raw_config"] is None and not scn["no_config"] and not (classes & {"UnknownKey", "ConfigUnreadable"}):
+            if len([x for x in scn["tags"] if x in FAIL_CLASSES]) == 1 and t in FAIL_CLASSES and t not in classes and scn["raw_config"] is None and not scn["no_config"] and not (classes & {"UnknownKey", "ConfigUnreadable"}):
                 raise RuntimeError("generator/resolver inconsistency: injected %s but resolved classes are %s (%s)" % (t, sorted(classes), json.dumps(describe(res))[:1500]))
         if scn.get("alias"):
             if known_symptom(res, None) and any(k["id"] == "C09-output-path-alias" for k in known):
